@@ -52,13 +52,14 @@ var keyA = crash.FixedKey(1, 21)
 // ---------------------------------------------------------------- credential universe
 
 type cred struct {
-	name   string         // e.g. "M/ldp"
-	format string         // ldp_vc | jwt_vc
-	id     string         // credential id (may be empty, may be shared with another credential)
-	key    string         // content identity used by the harness
-	view   map[string]any // the credential as JSON paths see it (harness's own rendering)
-	parsed vc.VerifiableCredential
-	raw    any // how it appears inside a presentation: object (ldp) or string (jwt)
+	name         string         // e.g. "M/ldp"
+	format       string         // ldp_vc | jwt_vc
+	id           string         // credential id (may be empty, may be shared with another credential)
+	key          string         // content identity used by the harness
+	selfAttested bool           // no proof (ldp) / empty signature (jwt)
+	view         map[string]any // the credential as JSON paths see it (harness's own rendering)
+	parsed       vc.VerifiableCredential
+	raw          any // how it appears inside a presentation: object (ldp) or string (jwt)
 }
 
 func subjectOf(kind string) map[string]any {
@@ -79,11 +80,14 @@ func subjectOf(kind string) map[string]any {
 // "M/ldp+dup" is a byte-identical second copy of M/ldp. The harness identifies credentials by content (key).
 func buildUniverse() []cred {
 	type spec struct{ name, kind, format, id string }
+	// "SA-*" are SELF-ATTESTED: a JSON-LD credential without proof, a JWT with an empty signature (appended last, so that the
+	// indices of the other credentials stay what they were)
 	specs := []spec{
 		{"M/ldp", "M", "ldp_vc", issuerDID + "#M"}, {"M/jwt", "M", "jwt_vc", issuerDID + "#M"},
 		{"N1/ldp", "N1", "ldp_vc", issuerDID + "#M"}, {"N1/jwt", "N1", "jwt_vc", issuerDID + "#N1"},
 		{"N2/ldp", "N2", "ldp_vc", ""}, {"N2/jwt", "N2", "jwt_vc", issuerDID + "#N2"},
 		{"D/jwt", "D", "jwt_vc", issuerDID + "#D"}, {"M/ldp+dup", "M", "ldp_vc", issuerDID + "#M"},
+		{"SA-M/ldp", "M", "ldp_vc", issuerDID + "#SA-M-ldp"}, {"SA-M/jwt", "M", "jwt_vc", issuerDID + "#SA-M-jwt"}, {"SA-N1/jwt", "N1", "jwt_vc", issuerDID + "#SA-N1-jwt"},
 	}
 	var out []cred
 	for _, sp := range specs {
@@ -92,7 +96,7 @@ func buildUniverse() []cred {
 		if kind == "D" {
 			typ = "DecoyCredential"
 		}
-		c := cred{name: sp.name, format: format, id: id}
+		c := cred{name: sp.name, format: format, id: id, selfAttested: strings.HasPrefix(sp.name, "SA-")}
 		if format == "ldp_vc" {
 			doc := map[string]any{
 				"@context":          []any{"https://www.w3.org/2018/credentials/v1"},
@@ -105,6 +109,9 @@ func buildUniverse() []cred {
 			}
 			if id != "" {
 				doc["id"] = id
+			}
+			if c.selfAttested {
+				delete(doc, "proof")
 			}
 			raw, _ := json.Marshal(doc)
 			p, err := vc.ParseVerifiableCredential(string(raw))
@@ -119,6 +126,9 @@ func buildUniverse() []cred {
 				claims["jti"] = id
 			}
 			tok := crash.CompactJSON(map[string]any{"alg": "ES256", "typ": "JWT", "kid": issuerDID + "#0"}, claims, keyA)
+			if c.selfAttested {
+				tok = tok[:strings.LastIndex(tok, ".")+1] // empty signature
+			}
 			p, err := vc.ParseVerifiableCredential(tok)
 			if err != nil {
 				panic(err)
@@ -329,6 +339,10 @@ func formatOK(f formatT, c cred) bool {
 	entry, ok := f[c.format]
 	if !ok {
 		return false
+	}
+	if c.selfAttested {
+		// nothing to compare a proof type / algorithm with, but the credential's FORMAT has to be one the definition lists
+		return true
 	}
 	want, key := "JsonWebSignature2020", "proof_type"
 	if c.format == "jwt_vc" {
@@ -731,8 +745,11 @@ func grammarRequirements(thorough bool) []namedDef {
 	for _, b := range rb {
 		reqSets = append(reqSets, []requirementT{b})
 	}
-	for _, a := range ra {
-		for _, b := range rb {
+	for ai, a := range ra {
+		for bi, b := range rb {
+			if !thorough && (ai == 3 || ai == 5 || ai == 7 || ai == 8 || bi == 3 || bi == 5 || bi == 7 || bi == 8) {
+				continue // quick tier: pairs over {all, count 1, count 2, min 1, max 1, none}; every rule still occurs alone and nested
+			}
 			reqSets = append(reqSets, []requirementT{a, b})
 		}
 	}
@@ -866,19 +883,30 @@ func TestVerifC12(t *testing.T) {
 		maxWallet = 4
 	}
 	var wallets [][]int
-	enum.Subsets(len(universe), maxWallet, func(idx []int) bool { wallets = append(wallets, idx); return true })
+	enum.Subsets(len(universe), maxWallet, func(idx []int) bool {
+		if !r.Thorough() && len(idx) > 2 {
+			for _, i := range idx {
+				if universe[i].selfAttested {
+					return true // quick tier: self-attested credentials in wallets of up to two credentials
+				}
+			}
+		}
+		wallets = append(wallets, idx)
+		return true
+	})
 
 	var defs []namedDef
 	defs = append(defs, grammarFields()...)
 	defs = append(defs, grammarFormats()...)
 	defs = append(defs, grammarMulti()...)
 	defs = append(defs, grammarRequirements(r.Thorough())...)
-	r.Rule("definitions = union of three exhaustively enumerated sub-grammars: FIELDS (1 descriptor; field = 7 path sets x 14 filters {none, type-only x4, const x3, enum, pattern with 0/1/2 groups, unanchored one-group pattern, pattern on type} x optional {unset,false,true}, alone and behind a type field), FORMATS (2 descriptors; 7 designations at definition level x 7 at descriptor 1 x 3 at descriptor 2), REQUIREMENTS (2, thorough 3, descriptors over groups {A},{B},{A,B}; descriptor variants: overlapping match sets / disjoint match sets among credentials sharing an id / same claims pinned to one format each; 1-2 requirements from {all, pick count 1/2, min 0/1/2, max 1, min+max, min only, none} per group in both orders plus one nesting level; every group referenced); only schema-valid definitions kept. wallets = every subset (<=3, thorough <=4; quick: <=2 for single-descriptor definitions) of 8 distinct credential objects {matching as ldp and as jwt under ONE id, re-issued clone with other claims under that same id, near(one field off) jwt, near(array-valued field) ldp WITHOUT id and jwt, decoy, byte-identical duplicate of the matching ldp}, identified by content. For EVERY pair the product entry points run: wallet PresentationSubmissionBuilder.Build (a returned submission must present a complete selection), verifier ParseEnvelope+ParsePresentationSubmission+Validate of an empty descriptor map over a presentation holding the whole wallet and over an empty envelope (accepted => zero credentials are complete). For each matching pair: envelopes {single, array-of-1, array-with-decoy-first} x {ldp_vp, jwt_vp}, and every mutation of the correct submission: all enum single mutations of the descriptor map + permute, drop, duplicate (plain / forged first / forged last), retarget, change format, nest/un-nest. A case is distinct by (definition, wallet[, envelope, mutation])")
+	r.Rule("definitions = union of three exhaustively enumerated sub-grammars: FIELDS (1 descriptor; field = 7 path sets x 14 filters {none, type-only x4, const x3, enum, pattern with 0/1/2 groups, unanchored one-group pattern, pattern on type} x optional {unset,false,true}, alone and behind a type field), FORMATS (2 descriptors; 7 designations at definition level x 7 at descriptor 1 x 3 at descriptor 2), REQUIREMENTS (2, thorough 3, descriptors over groups {A},{B},{A,B}; descriptor variants: overlapping match sets / disjoint match sets among credentials sharing an id / same claims pinned to one format each; 1-2 requirements from {all, pick count 1/2, min 0/1/2, max 1, min+max, min only, none} per group in both orders plus one nesting level; every group referenced); only schema-valid definitions kept. wallets = every subset (<=3, thorough <=4; quick: <=2 for single-descriptor definitions) of 11 distinct credential objects {three SELF-ATTESTED ones (ldp without proof, jwt with empty signature; matching and near-matching; quick: in wallets of up to two), matching as ldp and as jwt under ONE id, re-issued clone with other claims under that same id, near(one field off) jwt, near(array-valued field) ldp WITHOUT id and jwt, decoy, byte-identical duplicate of the matching ldp}, identified by content. For EVERY pair the product entry points run: wallet PresentationSubmissionBuilder.Build (a returned submission must present a complete selection), verifier ParseEnvelope+ParsePresentationSubmission+Validate of an empty descriptor map over a presentation holding the whole wallet and over an empty envelope (accepted => zero credentials are complete). For each matching pair: envelopes {single, array-of-1, array-with-decoy-first} x {ldp_vp, jwt_vp}, and every mutation of the correct submission: all enum single mutations of the descriptor map + permute, drop, duplicate (plain / forged first / forged last), retarget, change format, nest/un-nest. A case is distinct by (definition, wallet[, envelope, mutation])")
 	r.Assume("the reference evaluator covers exactly the generated feature set (paths $.a.b / $.a[0].b; filters type/const/enum/pattern; optional; format designations; all/pick/count/min/max, one nesting level); cases outside it are counted as unjudged, never as violations")
 
 	hw := newHolderFixture(t)
 	var rc replayT
 	replaying := r.ReplayCase(&rc)
+	foreignDone := map[string]int{} // (v') runs for the first matching wallet of a definition, in one worker
 	shapesDone := map[string]bool{} // (iv) runs once per selection shape: per shard in quick, per definition in thorough
 	var unjudged, matched, schemaInvalid, mutationsRun int64
 
@@ -1052,8 +1080,8 @@ func TestVerifC12(t *testing.T) {
 			// verifier's ParseEnvelope + ParsePresentationSubmission + Validate on the presentation the wallet actually produced
 			if nd.holder && refOK {
 				for _, vpFormat := range []string{"ldp_vp", "jwt_vp"} {
-					if vpFormat == "ldp_vp" && !r.Thorough() && (di+wi)%2 == 1 && !replaying {
-						continue // quick tier: the (slow) JSON-LD signing for every second pair, JWT for every pair
+					if !r.Thorough() && !replaying && ((vpFormat == "ldp_vp" && (di+wi)%4 != 0) || (vpFormat == "jwt_vp" && (di+wi)%2 != 0)) {
+						continue // quick tier: JWT presentations for every second pair, the (slow) JSON-LD signing for every fourth
 					}
 					holderCase(r, guard, hw, nd, pd, defJSON, wvc, wnames, byKey, vpFormat)
 				}
@@ -1160,6 +1188,65 @@ func TestVerifC12(t *testing.T) {
 						}
 						if !valueAcceptable(f, want, got) {
 							r.Violation("C12|resolve-fields|value-differs-from-credential", fmt.Sprintf("field %s of descriptor %s: extracted %v, credential %s holds %v", *f.ID, d.ID, got, c.name, want), mk(""))
+						}
+					}
+				}
+			}
+			// (v') the same extraction when the credential map also holds entries for descriptor ids of OTHER definitions (a session
+			// with an organization and a user definition merges both maps): every foreign credential, 16 repetitions for map order
+			if rerr == nil && foreignDone[nd.name] < 1 && len(credMap) > 0 && (replaying || r.Mine(di)) {
+				foreignDone[nd.name]++
+				named := false
+				for _, d := range nd.def.InputDescriptors {
+					for _, f := range d.Constraints.Fields {
+						named = named || f.ID != nil
+					}
+				}
+				for fi := 0; named && fi < len(universe); fi++ {
+					if n := universe[fi].name; n != "M/jwt" && n != "N1/ldp" && n != "N1/jwt" && n != "N2/jwt" && n != "D/jwt" {
+						continue // foreign credentials: matching, clone under the same id, near-matching (two kinds), decoy
+					}
+					for _, extra := range [][]string{{"other-definition-descriptor"}, {"other-a", "other-b"}} {
+						bad := ""
+						for rep := 0; rep < 16 && bad == ""; rep++ {
+							m := map[string]vc.VerifiableCredential{}
+							for _, id := range extra {
+								m[id] = universe[fi].parsed
+							}
+							for k, v := range credMap {
+								m[k] = v
+							}
+							var vals map[string]interface{}
+							var e2 error
+							if o, p := guard("ResolveConstraintsFields(foreign)", func() string { vals, e2 = pd.ResolveConstraintsFields(m); return "done" }); p {
+								r.Violation("C12|resolve-fields|panic", "ResolveConstraintsFields panics: "+o, mk(o))
+								break
+							}
+							if e2 != nil {
+								break
+							}
+							for _, d := range nd.def.InputDescriptors {
+								c, ok := byKey[selByDescriptor[d.ID]]
+								if !ok {
+									continue
+								}
+								for _, f := range d.Constraints.Fields {
+									if f.ID == nil {
+										continue
+									}
+									got, has := vals[*f.ID]
+									_, want, found, ferr := fieldSatisfied(f, c.view)
+									if ferr != nil || !found || !has {
+										continue
+									}
+									if !valueAcceptable(f, want, got) {
+										bad = fmt.Sprintf("field %s of descriptor %s: extracted %v, the credential mapped to that descriptor (%s) holds %v; the map also held %v -> %s", *f.ID, d.ID, got, c.name, want, extra, universe[fi].name)
+									}
+								}
+							}
+						}
+						if bad != "" {
+							r.Violation("C12|resolve-fields|value-from-credential-of-other-descriptor", "with entries of another definition in the credential map, "+bad, mk(bad))
 						}
 					}
 				}
